@@ -46,6 +46,18 @@ def make_fold(atom):
     return fold
 
 
+def _namedtuples_of(model: Model, rel: str = TYPES):
+    out = {}
+    for name, v in model.file(rel).assigns.items():
+        if isinstance(v, ast.Call) and ((last_attr(v) or "") in ("namedtuple", "NamedTuple") or (isinstance(v.func, ast.Name) and v.func.id == "namedtuple")) and len(v.args) >= 2:
+            f = v.args[1]
+            if isinstance(f, ast.Constant) and isinstance(f.value, str):
+                out[name] = f.value.replace(",", " ").split()
+            elif isinstance(f, (ast.List, ast.Tuple)) and all(isinstance(e, ast.Constant) for e in f.elts):
+                out[name] = [e.value for e in f.elts]
+    return out
+
+
 def typing_outcomes(model: Model, opname: str, lk: str, rk: str, comparisons: set):
     """[('accept', result kind, [operand kinds]) | ('raise', error)] for one abstract triple."""
     rb = model.func(TYPES, "ResolveBinaryExpressionType")
@@ -81,6 +93,13 @@ def typing_outcomes(model: Model, opname: str, lk: str, rk: str, comparisons: se
                 eqv = None if lk == rk else False
                 return eqv if isinstance(t.ops[0], ast.Eq) else (None if eqv is None else True)
             sc = s.replace(" ", "")
+            # shapes carried in a namedtuple of the module: `NT(a, b)` is the pair, `.field` (not a call) its position
+            import re as _re_nt
+
+            for nt_name, nt_fields in _namedtuples_of(model).items():
+                sc = sc.replace(f"{nt_name}(", "(")
+                for i_, fld_ in enumerate(nt_fields):
+                    sc = _re_nt.sub(rf"\.{fld_}\b(?!\()", f"[{i_}]", sc)
             if sc in (f"{SHL}[1]!={SHR}[0]", f"{SHR}[0]!={SHL}[1]"):
                 if lk == "V":
                     return True  # (n,1) x (?,?): 1 != rows for the spellable sizes 2..4
